@@ -432,7 +432,8 @@ fn universe_value(i: usize) -> Option<RVal> {
 }
 
 fn enumerate(ctx: &mut Ctx) {
-    let names = ["a", "b", "c"];
+    // tag names as records have them (`id`, `dis`); the literal universe has a Ref and a Str for them
+    let names = ["id", "dis", "c"];
     let lits: Vec<RVal> = (1..=5).map(|i| universe_value(i).unwrap()).collect();
     let mut terms: Vec<FTerm> = vec![];
     for n in names {
@@ -455,6 +456,8 @@ fn enumerate(ctx: &mut Ctx) {
         records.push(r);
     }
     let built: Vec<Dict> = records.iter().map(build_dict).collect();
+    // all records as the rows of one grid (many rows share their `id`, `dis`, ...): filter_all must select exactly the accepted rows
+    let all_rows = Grid::make_from_dicts(built.clone());
     // size 1 and 2 (and, or); thorough adds size 3 over a reduced term set with all and/or/paren shapes
     let mut filters: Vec<FOr> = terms.iter().map(|t| FOr::single(t.clone())).collect();
     for t1 in &terms {
@@ -467,7 +470,7 @@ fn enumerate(ctx: &mut Ctx) {
         .iter()
         .filter(|t| match t {
             FTerm::Has(p) | FTerm::Missing(p) => p[0] != "c",
-            FTerm::Cmp(p, _, v) => p[0] != "c" && matches!(v, RVal::Num(_, None) | RVal::Str(_)),
+            FTerm::Cmp(p, _, v) => p[0] != "c" && matches!(v, RVal::Num(_, None) | RVal::Str(_) | RVal::Ref(..)),
             _ => false,
         })
         .cloned()
@@ -493,7 +496,7 @@ fn enumerate(ctx: &mut Ctx) {
     let results: std::sync::Mutex<(Rec, Vec<(Verdict, J)>)> = std::sync::Mutex::new((Rec::new(), vec![]));
     std::thread::scope(|s| {
         for shard in 0..SHARDS {
-            let (filters, records, built, results) = (&filters, &records, &built, &results);
+            let (filters, records, built, results, all_rows) = (&filters, &records, &built, &results, &all_rows);
             s.spawn(move || {
                 let mut rec = Rec::new();
                 let mut fails = vec![];
@@ -502,11 +505,17 @@ fn enumerate(ctx: &mut Ctx) {
                     let lib = to_lib(f);
                     // half of them through the parser as well
                     let parsed = if fi % 2 == 0 { Filter::try_from(print(f, &[]).0.as_str()).ok() } else { None };
+                    let mut accepted: Vec<usize> = vec![];
+                    let mut any_open = false;
                     for (ri, r) in records.iter().enumerate() {
                         rec.evals += 1;
                         let want = eval_or(f, r, &NoRefs);
                         if want == Tri::Open {
+                            any_open = true;
                             continue;
+                        }
+                        if want == Tri::True {
+                            accepted.push(ri);
                         }
                         let got = match guarded(|| built[ri].filter(&lib)) {
                             Ok(g) => g,
@@ -526,6 +535,25 @@ fn enumerate(ctx: &mut Ctx) {
                         }
                         if v.is_fail() && fails.len() < 3 {
                             fails.push((v, json!({"filter": or_json(f), "records": [to_json(&RVal::Dict(r.clone()))], "store": {}, "choices": []})));
+                        }
+                    }
+                    if !any_open && fails.is_empty() {
+                        rec.evals += 1;
+                        let got: Vec<&Dict> = all_rows.filter_all(&lib);
+                        let same = got.len() == accepted.len() && got.iter().zip(accepted.iter()).all(|(d, ri)| std::ptr::eq(*d, &all_rows.rows[*ri]));
+                        let first_ok = match (all_rows.filter(&lib), accepted.first()) {
+                            (Some(d), Some(ri)) => std::ptr::eq(d, &all_rows.rows[*ri]),
+                            (None, None) => true,
+                            _ => false,
+                        };
+                        if !same || !first_ok {
+                            fails.push((
+                                Verdict::fail(
+                                    format!("C07:exhaustive:grid-filter_all:{}", kinds(f)),
+                                    format!("filter `{}` over the {} records as one grid: filter_all returns {} rows (first match ok: {first_ok}), the semantics select {}", print(f, &[]).0, records.len(), got.len(), accepted.len()),
+                                ),
+                                json!({"filter": or_json(f), "records": accepted.iter().take(3).map(|ri| to_json(&RVal::Dict(records[*ri].clone()))).collect::<Vec<_>>(), "store": {}, "choices": []}),
+                            ));
                         }
                     }
                     if f.term_count() >= 2 || !matches!(f.0[0].0[0], FTerm::Has(_)) {
@@ -548,7 +576,7 @@ fn enumerate(ctx: &mut Ctx) {
 }
 
 pub fn run(ctx: &mut Ctx) {
-    ctx.rule("generated: (filter AST with every term kind, every literal kind the syntax admits, paths of 1-4 segments, and/or/paren nesting; 1-3 records whose tags are steered near the filter's literals: equal, just above, just below, other kind, missing, Null, NaN, +-INF, list containing / not containing it, nested dicts; a small ref store with cycles) - the libhaystack Filter is built from the AST through the public node fields (and also through text -> parser); oracle: a direct evaluator of the statement (Tri-valued: comparisons of Numbers with different units are left open and only counted); grids: filter_all returns exactly the accepted rows in order, filter the first; exhaustive slice: all filters of size <= 2 (and, for a reduced term set, size 3 in all four and/or/paren shapes) over names {a,b,c}, literals {1, 2m, \"x\", true, @r}, all six operators against all 512 records over an 8-value universe (absent, 1, 2m, \"x\", true, @r, NaN, [1,\"x\"]); non-trivial: filter has a comparison, `not` or `->` and some path resolves; distinct by (filter text, record)");
+    ctx.rule("generated: (filter AST with every term kind, every literal kind the syntax admits, paths of 1-4 segments, and/or/paren nesting; 1-3 records whose tags are steered near the filter's literals: equal, just above, just below, other kind, missing, Null, NaN, +-INF, list containing / not containing it, nested dicts; a small ref store with cycles) - the libhaystack Filter is built from the AST through the public node fields (and also through text -> parser); oracle: a direct evaluator of the statement (Tri-valued: comparisons of Numbers with different units are left open and only counted); grids: filter_all returns exactly the accepted rows in order, filter the first; exhaustive slice: all filters of size <= 2 (and, for a reduced term set, size 3 in all four and/or/paren shapes) over names {id,dis,c}, literals {1, 2m, \"x\", true, @r}, all six operators against all 512 records over an 8-value universe (absent, 1, 2m, \"x\", true, @r, NaN, [1,\"x\"]), plus, per filter, all 512 records as the rows of one grid (filter_all = exactly the accepted rows in order, filter = the first); non-trivial: filter has a comparison, `not` or `->` and some path resolves; distinct by (filter text, record)");
     ctx.assume("Ref equality ignores the display name and timestamps compare by instant (Haystack semantics); ^symbol / relationship terms are decided by C13 and evaluate to false against the empty default namespace");
     enumerate(ctx);
     let depth = ctx.tier.pick(2, 3) as u32;
